@@ -72,27 +72,77 @@ Lemma nth_error_lt {A} (l : list A) n x : nth_error l n = Some x -> n < length l
 Proof. intros H. apply nth_error_Some. congruence. Qed.
 
 (* ------------------------------------------------------------------ one thread runs to its end *)
+Definition pend_of (st : cstate) (j : nat) : list delivery := l_pend (nth j (c_loc st) loc0).
+
+Lemma crun_app st a b : crun (crun st a) b = crun st (a ++ b).
+Proof. unfold crun. symmetry. apply fold_left_app. Qed.
+
+(* the messages of a snapshot are sent one per step *)
+Lemma drain i : forall L st,
+  pend_of st i = L -> i < length (c_loc st) ->
+  pend_of (crun st (repeat i (length L))) i = [] /\
+  c_lock (crun st (repeat i (length L))) = c_lock st /\
+  c_progs (crun st (repeat i (length L))) = c_progs st /\
+  length (c_loc (crun st (repeat i (length L)))) = length (c_loc st) /\
+  (forall j, j <> i -> pend_of (crun st (repeat i (length L))) j = pend_of st j).
+Proof.
+  induction L as [|d pr]; intros st P LT; simpl.
+  - repeat split; auto.
+  - unfold pend_of in P. unfold cstep at 1 2 3 4 5. rewrite P.
+    match goal with |- context [crun ?s _] => set (s1 := s) end.
+    destruct (IHpr s1) as (A & B & C & D & E).
+    + unfold pend_of, s1. simpl. rewrite nth_set_nth_same by auto. reflexivity.
+    + unfold s1. simpl. rewrite set_nth_length. auto.
+    + split; auto. split; auto. split; auto. split.
+      * rewrite D. unfold s1. simpl. apply set_nth_length.
+      * intros j N. rewrite E by auto. unfold pend_of, s1. simpl. rewrite nth_set_nth_other by auto. reflexivity.
+Qed.
+
 Lemma run_alone i p : forall st (held : bool),
   nth_error (c_progs st) i = Some p ->
+  pend_of st i = [] -> i < length (c_loc st) ->
   c_lock st = (if held then Some i else @None nat) ->
   balanced_from held p = true ->
-  c_lock (crun st (repeat i (length p))) = None /\
-  c_progs (crun st (repeat i (length p))) = set_nth i [] (c_progs st).
+  exists k,
+    c_lock (crun st (repeat i k)) = None /\
+    c_progs (crun st (repeat i k)) = set_nth i [] (c_progs st) /\
+    length (c_loc (crun st (repeat i k))) = length (c_loc st) /\
+    pend_of (crun st (repeat i k)) i = [] /\
+    (forall j, j <> i -> pend_of (crun st (repeat i k)) j = pend_of st j).
 Proof.
-  induction p as [|a r]; intros st held E L B; simpl in *.
-  - destruct held; [discriminate|]. split; auto. symmetry. apply set_nth_same; auto.
-  - pose proof (nth_error_lt _ _ _ E) as LT.
+  induction p as [|a r]; intros st held E PE LT L B; simpl in *.
+  - destruct held; [discriminate|]. exists 0. simpl. split; auto. split; [symmetry; apply set_nth_same; auto|]. auto.
+  - pose proof (nth_error_lt _ _ _ E) as LTP.
     assert (STEP : forall held' : bool,
       enabled (c_lock st) a = true ->
       (match a with AAcq => Some i | ARel _ => None | _ => c_lock st end) = (if held' then Some i else @None nat) ->
       balanced_from held' r = true ->
-      c_lock (crun (cstep st i) (repeat i (length r))) = None /\
-      c_progs (crun (cstep st i) (repeat i (length r))) = set_nth i [] (c_progs st)).
-    { intros held' EN L' B'. unfold cstep. rewrite E, EN.
-      match goal with |- context [crun ?s _] => set (s1 := s) end.
-      destruct (IHr s1 held') as [R1 R2]; simpl; auto.
-      - apply nth_error_set_nth_same; auto.
-      - split; auto. rewrite R2. simpl. apply set_nth_set_nth. }
+      exists k,
+        c_lock (crun st (repeat i k)) = None /\
+        c_progs (crun st (repeat i k)) = set_nth i [] (c_progs st) /\
+        length (c_loc (crun st (repeat i k))) = length (c_loc st) /\
+        pend_of (crun st (repeat i k)) i = [] /\
+        (forall j, j <> i -> pend_of (crun st (repeat i k)) j = pend_of st j)).
+    { intros held' EN L' B'.
+      (* the step itself *)
+      assert (S1 : exists s1, cstep st i = s1 /\ c_lock s1 = (if held' then Some i else @None nat) /\
+                     c_progs s1 = set_nth i r (c_progs st) /\ length (c_loc s1) = length (c_loc st) /\
+                     (forall j, j <> i -> pend_of s1 j = pend_of st j)).
+      { eexists. split; [reflexivity|]. unfold cstep. unfold pend_of in PE. rewrite PE, E, EN. simpl.
+        split; auto. split; auto. split; [apply set_nth_length|].
+        intros j N. unfold pend_of. simpl. rewrite nth_set_nth_other by auto. reflexivity. }
+      destruct S1 as (s1 & C1 & L1 & P1 & N1 & O1).
+      (* the messages of a snapshot taken by the step *)
+      destruct (drain i (pend_of s1 i) s1 eq_refl) as (D1 & D2 & D3 & D4 & D5); [rewrite N1; auto|].
+      set (k1 := length (pend_of s1 i)) in *. set (s2 := crun s1 (repeat i k1)) in *.
+      destruct (IHr s2 held') as (k2 & R1 & R2 & R3 & R4 & R5); auto.
+      - rewrite D3, P1. apply nth_error_set_nth_same; auto.
+      - rewrite D4, N1. auto.
+      - rewrite D2. auto.
+      - exists (S (k1 + k2)). simpl. rewrite C1. rewrite repeat_app, <- crun_app. fold s2.
+        split; auto. split; [rewrite R2, D3, P1; apply set_nth_set_nth|].
+        split; [rewrite R3, D4; auto|]. split; auto.
+        intros j N. rewrite R5, D5, O1; auto. }
     destruct a; simpl in B.
     + apply andb_true_iff in B as [B1 B2]. destruct held; [discriminate|].
       apply (STEP true); auto. simpl. rewrite L. reflexivity.
@@ -100,12 +150,7 @@ Proof.
     + apply (STEP held); auto.
     + apply (STEP held); auto.
     + apply (STEP held); auto.
-    + apply (STEP held); auto.
-    + apply (STEP held); auto.
 Qed.
-
-Lemma crun_app st a b : crun (crun st a) b = crun st (a ++ b).
-Proof. unfold crun. symmetry. apply fold_left_app. Qed.
 
 (* the threads 0 .. k-1 one after the other *)
 Lemma run_prefix progs t0 :
@@ -114,35 +159,46 @@ Lemma run_prefix progs t0 :
   exists sched,
     c_lock (crun (init progs t0) sched) = None /\
     length (c_progs (crun (init progs t0) sched)) = length progs /\
+    length (c_loc (crun (init progs t0) sched)) = length progs /\
+    (forall j, pend_of (crun (init progs t0) sched) j = []) /\
     (forall j, j < k -> nth_error (c_progs (crun (init progs t0) sched)) j = Some []) /\
     (forall j, k <= j -> nth_error (c_progs (crun (init progs t0) sched)) j = nth_error progs j).
 Proof.
   intros BAL. induction k as [|k IH]; intros LE.
-  - exists []. simpl. repeat split; auto. intros j H; lia.
-  - destruct IH as (sched & L & LEN & DONE & REST); [lia|].
+  - exists []. simpl. split; auto. split; auto. split; [apply map_length|]. split.
+    + intros j. unfold pend_of. simpl.
+      destruct (nth_in_or_default j (map (fun _ : list aop => loc0) progs) loc0) as [I|D].
+      * apply in_map_iff in I as (x & X & _). rewrite <- X. reflexivity.
+      * rewrite D. reflexivity.
+    + split; auto. intros j H; lia.
+  - destruct IH as (sched & L & LEN & LLEN & PEND & DONE & REST); [lia|].
     set (st := crun (init progs t0) sched) in *.
     destruct (nth_error progs k) as [p|] eqn:E; [|apply nth_error_None in E; lia].
     assert (B : balanced p = true).
     { rewrite Forall_forall in BAL. apply BAL. eapply nth_error_In; eauto. }
     assert (E' : nth_error (c_progs st) k = Some p) by (rewrite REST; auto).
-    destruct (run_alone k p st false E' L B) as [R1 R2].
-    exists (sched ++ repeat k (length p)). rewrite <- crun_app. fold st.
-    split; [exact R1|]. rewrite R2. split; [rewrite set_nth_length; auto|]. split.
-    + intros j J. destruct (Nat.eq_dec j k) as [->|N].
-      * apply nth_error_set_nth_same. rewrite LEN. lia.
-      * rewrite nth_error_set_nth_other by auto. apply DONE. lia.
-    + intros j J. rewrite nth_error_set_nth_other by lia. apply REST. lia.
+    destruct (run_alone k p st false E' (PEND k)) as (n & R1 & R2 & R3 & R4 & R5); auto; [rewrite LLEN; lia|].
+    exists (sched ++ repeat k n). rewrite <- crun_app. fold st.
+    split; [exact R1|]. rewrite R2. split; [rewrite set_nth_length; auto|]. split; [rewrite R3; auto|]. split.
+    + intros j. destruct (Nat.eq_dec j k) as [->|N]; auto. rewrite R5; auto.
+    + split.
+      * intros j J. destruct (Nat.eq_dec j k) as [->|N].
+        -- apply nth_error_set_nth_same. rewrite LEN. lia.
+        -- rewrite nth_error_set_nth_other by auto. apply DONE. lia.
+      * intros j J. rewrite nth_error_set_nth_other by lia. apply REST. lia.
 Qed.
 
 Lemma complete_schedule_exists progs t0 :
   Forall (fun p => balanced p = true) progs ->
   exists sched, all_done (crun (init progs t0) sched) = true.
 Proof.
-  intros BAL. destruct (run_prefix progs t0 BAL (length progs) (le_n _)) as (sched & _ & LEN & DONE & _).
-  exists sched. unfold all_done. apply forallb_forall. intros p I.
-  apply In_nth_error in I as [j J].
-  assert (j < length progs) by (rewrite <- LEN; eapply nth_error_lt; eauto).
-  rewrite DONE in J by auto. inversion J. reflexivity.
+  intros BAL. destruct (run_prefix progs t0 BAL (length progs) (le_n _)) as (sched & _ & LEN & LLEN & PEND & DONE & _).
+  exists sched. unfold all_done. apply andb_true_iff. split; apply forallb_forall.
+  - intros p I. apply In_nth_error in I as [j J].
+    assert (j < length progs) by (rewrite <- LEN; eapply nth_error_lt; eauto).
+    rewrite DONE in J by auto. inversion J. reflexivity.
+  - intros lo I. apply (In_nth _ _ loc0) in I as (j & J & N). specialize (PEND j). unfold pend_of in PEND.
+    rewrite N in PEND. rewrite PEND. reflexivity.
 Qed.
 
 (* any connection threads (compiled histories) together with any threads that use the lock in a balanced way (module threads
@@ -153,4 +209,16 @@ Lemma conn_threads_complete mods (hist : list (list op)) (others : list (list ao
 Proof.
   intros R. apply complete_schedule_exists. apply Forall_app. split; auto.
   apply Forall_forall. intros p I. apply in_map_iff in I as (ops & E & _). subst p. apply conn_prog_balanced.
+Qed.
+
+Lemma emit_prog_balanced recs : balanced (emit_prog recs) = true.
+Proof. unfold balanced, emit_prog. induction recs as [|r rs]; simpl; auto. Qed.
+
+Lemma all_threads_complete mods (hist : list (list op)) (recss : list (list (name * Z * name))) (others : list (list aop)) t0 :
+  Forall (fun p => balanced p = true) others ->
+  exists sched,
+    all_done (crun (init (map (conn_prog mods) hist ++ map emit_prog recss ++ others) t0) sched) = true.
+Proof.
+  intros R. apply conn_threads_complete. apply Forall_app. split; auto.
+  apply Forall_forall. intros p I. apply in_map_iff in I as (rs & E & _). subst p. apply emit_prog_balanced.
 Qed.
